@@ -8,8 +8,9 @@
 //!   B = base, D = (added, updated, deleted); apply(B, D) = (B without deleted/updated ids) ++ updated ++ added.
 //!   `tables[i]` is the step table the REAL pipeline (Router + Action, proxy order, as in
 //!   `RedirectionLoop::compute`) produced at generation time for every (url, method) on the orbit of
-//!   probe i; `run` recomputes it and declares the case invalid ("stale table") when it differs, so a
-//!   shrunk case can never compare the model against a table that is not the implementation's.
+//!   probe i; `run` recomputes it: a difference on a case exactly as generated ("digest" = FNV-1a of the case intact) is an
+//!   oracle failure (`nondeterministic-pipeline`), on a shrunk candidate (digest broken) the table is stale and the case is
+//!   invalid, so the model is never compared against a table that is not the implementation's.
 //! obs:  {"loops": [ {"hops": [[url, status, method]..], "error": null|"Loop"|..} | {"error_message": ..} per probe ]}
 //!   = the `redirection_loop` of `ExplainRequestOutput` (standalone family) per probe; the model
 //!   (Model/Loop.lean) must produce exactly this from the table.
@@ -35,6 +36,8 @@ use redirectionio::RouterConfig;
 use rio_harness::*;
 use serde_json::{json, Map, Value};
 use std::sync::Arc;
+
+include!("w8_common.inc");
 
 const BODY: &str = "<!DOCTYPE html>\n<html>\n    <head>\n    </head>\n    <body>\n    </body>\n</html>";
 
@@ -312,7 +315,14 @@ fn example_for(rng: &mut Prng, rule: &Value) -> Value {
         "url": url, "method": method, "headers": null, "ip_address": null,
         "response_status_code": match rng.below(3) { 0 => Value::Null, 1 => json!(200), _ => json!(404) },
         "must_match": rng.chance(1, 2),
-        "unit_ids_applied": match rng.below(3) { 0 => Value::Null, 1 => json!([]), _ => json!([rule["redirect_unit_id"].clone()]) },
+        "unit_ids_applied": match rng.below(3) {
+            0 => Value::Null,
+            1 => json!([]),
+            _ => match rule["redirect_unit_id"].as_str() {
+                Some(u) => json!([u]),
+                None => json!(["u1"]),
+            },
+        },
     })
 }
 
@@ -520,15 +530,86 @@ fn gen_case(rng: &mut Prng) -> Value {
     })
 }
 
+/// FNV-1a of the case without its derived fields: tells a case as generated (digest matches) from a shrunk candidate
+fn case_digest(case: &Value) -> String {
+    let mut c = case.clone();
+    if let Some(o) = c.as_object_mut() {
+        o.remove("tables");
+        o.remove("an");
+        o.remove("digest");
+    }
+    let mut h: u64 = 0xcbf29ce484222325;
+    for b in c.to_string().bytes() {
+        h ^= b as u64;
+        h = h.wrapping_mul(0x100000001b3);
+    }
+    format!("{h:016x}")
+}
+
+fn finish_case(mut case: Value) -> Value {
+    // the step tables of the probes, from the real pipeline (a panic here is reproduced by `run`)
+    let tables = std::panic::catch_unwind(std::panic::AssertUnwindSafe(|| compute_tables(&case))).ok().flatten();
+    case["tables"] = tables.unwrap_or(Value::Null);
+    // `gen … --with-an` (gen_args): the per-example pipeline table for the analysis model (see compute_an)
+    if std::env::args().any(|a| a == "--with-an") {
+        let an = std::panic::catch_unwind(std::panic::AssertUnwindSafe(|| compute_an(&case))).ok().flatten();
+        case["an"] = an.unwrap_or(Value::Null);
+    }
+    case["digest"] = json!(case_digest(&case));
+    case
+}
+
+/// Diff-directed block (VERIF_HINTS): hinted strings as ids, paths, targets, hosts, methods, domains, unit ids, header names /
+/// values, probe urls; hinted sizes as hop limits, chain lengths, numbers of (failing) rules, of examples, of domains.
+fn gen_hinted(h: &Hints, rng: &mut Prng) -> Vec<Value> {
+    let mut out = Vec::new();
+    let cfg = json!({"ignore_host_case": false, "ignore_header_case": false, "ignore_path_and_query_case": false, "ignore_marketing_query_params": true, "marketing_query_params": ["utm_source"], "pass_marketing_query_params_to_target": true, "always_match_any_host": true});
+    for t in w8_hint_strs(h) {
+        let t = t.as_str();
+        let mut r0 = gen_versioned(rng, t, "h0", (0, 0, 0, 0));
+        r0["source"]["path"] = json!(format!("/{t}"));
+        r0["target"] = json!(format!("/{t}/2"));
+        r0["redirect_unit_id"] = json!(t);
+        r0["header_filters"] = json!([{"action": "add", "header": t, "value": t, "id": t, "target_hash": t}]);
+        let mut r1 = gen_versioned(rng, "h1", t, (0, 0, 0, 1));
+        r1["source"]["path"] = json!(format!("/{t}/2"));
+        r1["source"]["host"] = json!(t);
+        r1["source"]["methods"] = json!([t]);
+        r1["target"] = json!(t);
+        let ex = json!({"url": format!("/{t}"), "method": t, "headers": [{"name": t, "value": t}], "ip_address": t, "datetime": t, "response_status_code": null, "must_match": true, "unit_ids_applied": [t]});
+        r0["examples"] = json!([ex.clone()]);
+        let mut upd = r0.clone();
+        upd["source"]["path"] = json!(format!("/moved/{t}"));
+        out.push(json!({"config": cfg, "base": [r0.clone(), r1], "added": [], "updated": [upd], "deleted": [], "cache": true, "max_hops": 5, "domains": [t], "probes": [ex.clone(), {"url": format!("/{t}/2"), "method": null, "must_match": true}],
+            "impact": {"rule": r0, "action": t, "with_loop": true}}));
+    }
+    for n in h.sizes(400) {
+        // a redirect chain of n hops, walked with hop limits n-1, n, n+1
+        let chain: Vec<Value> = (0..n.min(300)).map(|i| { let mut r = gen_versioned(rng, &format!("c{i:03}"), "c", (0, 0, 0, 0)); r["source"]["path"] = json!(format!("/c{i}")); r["target"] = json!(format!("/c{}", i + 1)); r["status_code"] = json!(302); r }).collect();
+        for hops in [n.saturating_sub(1), n, n + 1] {
+            out.push(json!({"config": cfg, "base": chain, "added": [], "updated": [], "deleted": [], "cache": false, "max_hops": hops.min(255), "domains": [], "probes": [{"url": "/c0", "method": null, "must_match": true}], "impact": null}));
+        }
+        // n failing rules (the sample of test-examples holds eleven)
+        let failing: Vec<Value> = (0..n.min(60)).map(|i| { let mut r = gen_versioned(rng, &format!("f{i:03}"), "f", (0, 0, 0, 0)); r["source"]["path"] = json!(format!("/f{i}"));
+            r["examples"] = Value::Array((0..(n.min(12))).map(|_| json!({"url": format!("/f{i}"), "method": null, "must_match": true, "unit_ids_applied": ["never-applied"]})).collect()); r }).collect();
+        out.push(json!({"config": cfg, "base": failing, "added": [], "updated": [], "deleted": [], "cache": false, "max_hops": 2, "domains": (0..n.min(50)).map(|i| format!("d{i}.org")).collect::<Vec<_>>(), "probes": [{"url": "/f0", "must_match": true}], "impact": null}));
+    }
+    out
+}
+
 fn gen(args: &Args, emit: &mut dyn FnMut(Value)) {
     let mut rng = Prng::new(args.seed);
     std::panic::set_hook(Box::new(|_| {}));
+    let h = hints();
+    if !h.is_empty() {
+        for case in gen_hinted(&h, &mut rng) {
+            w8_watchdog::arm(120);
+            emit(finish_case(case));
+        }
+    }
     for _ in 0..args.n {
-        let mut case = gen_case(&mut rng);
-        // the step tables of the probes, from the real pipeline (a panic here is reproduced by `run`)
-        let tables = std::panic::catch_unwind(std::panic::AssertUnwindSafe(|| compute_tables(&case))).ok().flatten();
-        case["tables"] = tables.unwrap_or(Value::Null);
-        emit(case);
+        w8_watchdog::arm(120);
+        emit(finish_case(gen_case(&mut rng)));
     }
 }
 
@@ -853,6 +934,94 @@ fn compute_tables(case: &Value) -> Option<Value> {
 }
 
 // ------------------------------------------------------------------------------------------------
+// the per-example pipeline table for the analysis model of W4 (Model/LoopAnalysis.lean, driver key "an"): what the
+// real pipeline answers for every example of every rule of the FINAL router; the model supplies the glue of
+// test-examples / unit-ids (rule order, skipping, counters, failing condition, loop attachment, truncation, error path)
+
+fn compute_an(case: &Value) -> Option<Value> {
+    let c = parse_case(case).ok()?;
+    let applied = c.applied();
+    let router = router_of(&c.config, &applied);
+    let mut rules = Vec::new();
+    for (id, route) in router.routes() {
+        let rule = route.handler();
+        let exs: Value = match &rule.examples {
+            None => Value::Null,
+            Some(examples) => Value::Array(
+                examples
+                    .iter()
+                    .map(|ex| {
+                        let mut e = json!({"expected": ex.unit_ids_applied, "must_match": ex.must_match});
+                        match direct(&router, ex, Convention::ProxyOrder, true) {
+                            Err(msg) => e["req"] = json!({"err": msg}),
+                            Ok(t) => {
+                                e["req"] = json!("ok");
+                                e["test_rule_ids"] = json!(t.unit_trace.get_rule_ids_applied().into_iter().collect::<Vec<_>>());
+                                e["test_unit_ids"] = json!(t.unit_trace.get_unit_ids_applied().into_iter().collect::<Vec<_>>());
+                                let u = direct(&router, ex, Convention::ProxyOrder, false).ok();
+                                e["unit_unit_ids"] = json!(u.map(|u| u.unit_trace.get_unit_ids_applied().into_iter().collect::<Vec<_>>()));
+                                // RedirectionLoop is not exported: its error is read from the explain analysis of the example
+                                let input: Option<ExplainRequestInput> = serde_json::from_value(json!({"router_config": c.config_json, "example": ex, "rules": applied, "max_hops": c.max_hops, "project_domains": c.domains})).ok();
+                                let out = input.map(|i| explain_value(ExplainRequestOutput::create_result_without_project(i))).unwrap_or(Value::Null);
+                                e["loop_error"] = out["redirection_loop"]["error"].clone();
+                            }
+                        }
+                        e
+                    })
+                    .collect(),
+            ),
+        };
+        rules.push(json!({"id": id, "examples": exs}));
+    }
+    Some(json!({"max_hops": c.max_hops, "rules": rules}))
+}
+
+/// the projection of the real TestExamplesOutput / UnitIdsOutput (standalone family, final rule list) the model must equal
+fn observe_an(applied: &[Rule], te: &Value, ui: &Value) -> Value {
+    // indices of the reported (failed / errored) examples within their rule: reported examples keep the example order
+    let index_of = |rule: &Rule, reported: &[Value]| -> Vec<usize> {
+        let exs: Vec<Value> = rule.examples.clone().unwrap_or_default().iter().map(|e| serde_json::to_value(e).unwrap()).collect();
+        let mut out = Vec::new();
+        let mut k = 0;
+        for r in reported {
+            while k < exs.len() && exs[k] != r["example"] {
+                k += 1;
+            }
+            out.push(k);
+            k += 1;
+        }
+        out
+    };
+    let by_id = |id: &str| applied.iter().find(|r| r.id == id);
+    let mut failures = Vec::new();
+    if let Some(m) = te["first_ten_failures"].as_object() {
+        for (id, fr) in m {
+            let rep = fr["failed_examples"].as_array().cloned().unwrap_or_default();
+            let idx = by_id(id).map(|r| index_of(r, &rep)).unwrap_or_default();
+            let items: Vec<Value> = rep.iter().zip(idx.iter()).map(|(fe, i)| json!([i, fe["rule_ids_applied"], fe["unit_ids_applied"], fe["unit_ids_not_applied_anymore"], fe["redirection_loop"]["error"]])).collect();
+            failures.push(json!([id, items]));
+        }
+    }
+    let mut errors = Vec::new();
+    if let Some(m) = te["first_ten_errors"].as_object() {
+        for (id, er) in m {
+            let rep = er["errored_examples"].as_array().cloned().unwrap_or_default();
+            let idx = by_id(id).map(|r| index_of(r, &rep)).unwrap_or_default();
+            let items: Vec<Value> = rep.iter().zip(idx.iter()).map(|(ee, i)| json!([i, ee["error"]])).collect();
+            errors.push(json!([id, items]));
+        }
+    }
+    let mut unit_ids = Vec::new();
+    if let Some(m) = ui["rules"].as_object() {
+        for (id, ro) in m {
+            let items: Vec<Value> = ro["examples"].as_array().cloned().unwrap_or_default().iter().enumerate().map(|(i, e)| json!([i, e["unit_ids_applied"]])).collect();
+            unit_ids.push(json!([id, items]));
+        }
+    }
+    json!({"example_count": te["example_count"], "failure_count": te["failure_count"], "error_count": te["error_count"], "failures": failures, "errors": errors, "unit_ids": unit_ids})
+}
+
+// ------------------------------------------------------------------------------------------------
 // checks on a RedirectionLoop value found in an output
 
 fn check_loop(l: &Value, max_hops: u8) -> Result<(), (String, &'static str)> {
@@ -984,6 +1153,7 @@ fn explain_value(r: Result<ExplainRequestOutput, redirectionio::api::ExplainRequ
 }
 
 fn run(case: &Value) -> Obs {
+    w8_watchdog::arm(60);
     let strict_proxy_order = std::env::args().any(|a| a == "--strict-proxy-order");
     let c = match parse_case(case) {
         Ok(c) => c,
@@ -1002,7 +1172,17 @@ fn run(case: &Value) -> Obs {
     let tables_now = Value::Array(c.probes.iter().map(|p| table_for(&final_router, p, &c.domains, c.max_hops)).collect());
     match case.get("tables") {
         Some(t) if *t == tables_now => {}
-        _ => return Obs::invalid("stale table"),
+        _ => {
+            // A case exactly as generated (digest intact) whose table differs from what this process observes: the pipeline
+            // is not a function of its input (HashMap order, clock, …) — an oracle failure.  Nothing the generator emits is
+            // legitimately time-dependent: `sampling` is 0 / 100 only, no `time` / `weekdays` triggers, and the only datetime
+            // trigger is the range 1999–2001, far from `Utc::now()` (examples without `datetime`).  A shrunk candidate (digest
+            // broken: its rules / probes changed, the table is simply stale) stays invalid.
+            if case.get("digest").and_then(|d| d.as_str()) == Some(case_digest(case).as_str()) {
+                return Obs::new(json!({"loops": "table differs"})).fail("the step table the generator observed differs from the one this process observes for the same case", "nondeterministic-pipeline");
+            }
+            return Obs::invalid("stale table");
+        }
     }
 
     // ---- test examples
@@ -1337,7 +1517,26 @@ fn run(case: &Value) -> Obs {
         }
     }
     let nontrivial = !applied.is_empty() && !c.probes.is_empty();
-    let mut o = Obs::new(json!({"loops": loops})).trivial(!nontrivial);
+    let mut obs = json!({"loops": loops});
+    if let Some(an) = case.get("an").filter(|a| !a.is_null()) {
+        // `router.routes()` is a HashMap: compare the table up to the order of the rules
+        let sorted = |v: &Value| -> Value {
+            let mut v = v.clone();
+            if let Some(a) = v["rules"].as_array_mut() {
+                a.sort_by_key(|r| r["id"].as_str().unwrap_or("").to_string());
+            }
+            v
+        };
+        let now = compute_an(case).unwrap_or(Value::Null);
+        if sorted(&now) != sorted(an) {
+            if case.get("digest").and_then(|d| d.as_str()) == Some(case_digest(case).as_str()) {
+                return Obs::new(json!({"an": "table differs"})).fail("the per-example pipeline table the generator observed differs from the one this process observes for the same case", "nondeterministic-pipeline");
+            }
+            return Obs::invalid("stale analysis table");
+        }
+        obs["an"] = observe_an(&applied, &te_s, &ui_s);
+    }
+    let mut o = Obs::new(obs).trivial(!nontrivial);
     o.tags = tags;
     if let Some((why, sig)) = fails.first() {
         let all: Vec<String> = fails.iter().map(|(w, _)| w.clone()).collect();
